@@ -9,10 +9,10 @@ import (
 	"path/filepath"
 	"runtime/debug"
 	"runtime/pprof"
-	"time"
 	"sort"
 	"strconv"
 	"strings"
+	"time"
 
 	"verif/internal/core"
 	"verif/internal/rules"
